@@ -5,3 +5,5 @@ import TssVerif.Props.C16
 import TssVerif.Props.C14
 import TssVerif.Props.C15
 import TssVerif.Props.C17
+import TssVerif.Props.C06
+import TssVerif.Props.C13
